@@ -12,8 +12,8 @@ CONSTANTS
   PeerH = 0
   BugClearAlways = FALSE
   BugKeepOld = FALSE
-  QuirkLenDrift = TRUE
-  QuirkNoDiscardRecheck = TRUE
+  QuirkLenDrift = FALSE
+  QuirkNoDiscardRecheck = FALSE
 VIEW view
 INVARIANTS TypeOK RingOK QuiescentConverged CallOK NoStuck WindowOnly NoPanic
 PROPERTIES AbsRefines
